@@ -75,6 +75,40 @@ def mangle(cls, attr):
     return attr
 
 
+def _expand_factory(factory, call, name):
+    """factory: def F(p1, ..): [doc]; def inner(...): ...; [inner.attr = ...]; return inner.  Returns a copy of inner
+    named `name` in which p1.. are replaced by the arguments of `call` (plain names, attributes and constants only), or None."""
+    body = [s_ for s_ in factory.body if not (isinstance(s_, ast.Expr) and isinstance(s_.value, ast.Constant))]
+    if len(body) < 2 or not isinstance(body[0], ast.FunctionDef) or not isinstance(body[-1], ast.Return) \
+            or not isinstance(body[-1].value, ast.Name) or body[-1].value.id != body[0].name:
+        return None
+    inner = body[0]
+    for s_ in body[1:-1]:
+        # only decorations of the product (inner.__name__ = ..., inner.__doc__ = ...)
+        if not (isinstance(s_, ast.Assign) and len(s_.targets) == 1 and isinstance(s_.targets[0], ast.Attribute)
+                and isinstance(s_.targets[0].value, ast.Name) and s_.targets[0].value.id == inner.name):
+            return None
+    a = factory.args
+    if a.vararg or a.kwarg or a.kwonlyargs or call.keywords or len(call.args) != len(a.args) or a.defaults:
+        return None
+    if not all(isinstance(x, (ast.Name, ast.Attribute, ast.Constant)) for x in call.args):
+        return None
+    env = {p.arg: x for p, x in zip(a.args, call.args)}
+    bound = {p.arg for p in inner.args.args} | {t.id for n in ast.walk(inner) for t in ([n] if isinstance(n, ast.Name) and isinstance(n.ctx, ast.Store) else [])}
+    if bound & set(env):
+        return None
+
+    class Sub(ast.NodeTransformer):
+        def visit_Name(self, n):
+            if isinstance(n.ctx, ast.Load) and n.id in env:
+                return ast.copy_location(clone(env[n.id]), n)
+            return n
+    made = Sub().visit(clone(inner))
+    made.name = name
+    ast.fix_missing_locations(made)
+    return made
+
+
 class Func:
     """a function or method definition"""
 
@@ -135,6 +169,16 @@ class Module:
                 if not prefix or cls is None:
                     self.classes[prefix + st.name] = st
                 self._index(st.body, prefix + st.name + '.', st.name)
+            elif isinstance(st, ast.Assign) and len(st.targets) == 1 and isinstance(st.targets[0], ast.Name) and isinstance(st.value, ast.Call) \
+                    and isinstance(st.value.func, ast.Name) and (prefix + st.value.func.id) in self.funcs:
+                # NAME = factory(args): a function made by a closure factory of the same scope -- the inner definition with the
+                # factory's parameters replaced by the argument expressions is indexed as NAME
+                made = _expand_factory(self.funcs[prefix + st.value.func.id].node, st.value, st.targets[0].id)
+                if made is not None:
+                    set_parents(made)
+                    made._parent = getattr(st, '_parent', None)
+                    q = prefix + st.targets[0].id
+                    self.funcs[q] = Func(self, made, q, cls)
             elif isinstance(st, (ast.If, ast.Try, ast.With, ast.For, ast.While)):
                 for fld in ('body', 'orelse', 'finalbody'):
                     self._index(getattr(st, fld, []) or [], prefix, cls)
